@@ -279,11 +279,27 @@ def body_summary(b, roles, subst):
                     reps.append(a)
             conds.append((kind, truth, ','.join(reps)))
     effs = []
+    moved_back = [x for x in ops.body_effects(b, roles) if x.kind == 'AUX_MOVE']
+    last_back = {}
     for e in ops.body_effects(b, roles):
+        if roles.kind == 'maplist' and e.kind == 'BACKPTR' and moved_back and isinstance(e.val, tuple) and e.val[:2] == ('adv', -1) \
+                and len(e.val) > 2 and isinstance(e.val[2], tuple) and e.val[2][:2] in (('q', 'end'), ('q', 'cend')) \
+                and any(isinstance(getattr(mv, 'ent', None), Ent) and isinstance(e.ent, Ent) and mv.ent.key() == e.ent.key() for mv in moved_back):
+            # `m_ttl_position = std::prev(m_ttl_list.end())` right after the entry's own node was spliced to the back: the iterator the
+            # entry already holds names that node (splice keeps iterators valid), the store changes nothing
+            continue
         d = {}
+        if e.kind == 'AUX_ADD' and getattr(e, 'how', '') in ('emplace_back', 'push_back', 'emplace', 'insert'):
+            last_back[e.aux] = getattr(e, 'res', None)
+        elif e.kind in ('AUX_DEL', 'AUX_MOVE', 'AUX_OP', 'AUX_ERASE_RANGE'):
+            last_back.pop(getattr(e, 'aux', None), None)
         for k, v in sorted(e.__dict__.items()):
             if k in ('site', 'kind', 'loc'):
                 continue
+            if e.kind == 'BACKPTR' and k == 'val' and isinstance(v, tuple) and v[:2] == ('adv', -1) and len(v) > 2 and isinstance(v[2], tuple) \
+                    and v[2][:2] in (('q', 'end'), ('q', 'cend')) and len(v[2]) > 2 and isinstance(v[2][2], tuple) and v[2][2][:1] == ('fld',) \
+                    and last_back.get(v[2][2][2]) is not None:
+                v = last_back[v[2][2][2]]          # std::prev(l.end()) right after l.emplace_back(...): the node just appended
             if isinstance(v, Ent):
                 d[k] = ent_repr(v.kind, v.arg, subst, counter)
             elif isinstance(v, tuple):
